@@ -534,6 +534,18 @@ func (g *c12Gen) changes(vs *ValidatorSet) []*Validator {
 		if r.Chance(50) {
 			cs = nil
 		}
+	case 8, 9: // many near-cap entries in ONE set: the true total is far above the cap and, from 9
+		// entries on, above 2^63 - every int64 running sum that is not checked step by step wraps
+		cs = cs[:0]
+		used = map[common.Address]bool{}
+		k := r.Pick(3, 8, 9, 10, 12, 16, 17)
+		for tries := 0; len(cs) < k && tries < 200; tries++ {
+			a := g.addr(false)
+			if used[a] {
+				continue
+			}
+			add(a, MaxTotalVotingPower-int64(r.Pick(0, 0, 1, 2, 1000)))
+		}
 	}
 	// shuffle
 	for i := len(cs) - 1; i > 0; i-- {
